@@ -148,7 +148,7 @@ impl G<'_> {
         }
         match self.rng.weighted(&[4, 3, 3, 3, 3]) {
             0 => self.prim(),
-            1 => Ty::Array(Box::new(self.gen_ty(depth - 1)), 1 + self.rng.usize_below(4)),
+            1 => Ty::Array(Box::new(self.gen_ty(depth - 1)), if self.rng.chance(1, 8) { 0 } else { 1 + self.rng.usize_below(4) }),
             2 => {
                 let n = 2 + self.rng.usize_below(3);
                 Ty::Tuple((0..n).map(|_| self.gen_ty(depth - 1)).collect())
